@@ -365,6 +365,8 @@ class GraphWorld:
                 return self.pair_exists(container.store, container.role, x.role)
             raise Unsupported(node, "membership of %r in %r" % (x, container))
         if isinstance(container, TTE):
+            if isinstance(x, Const) and not isinstance(x.v, (int, float)):
+                return False          # None (an omitted vanishing time) is never an instant of the log
             en = self._entry(x)
             return en.exists
         if isinstance(container, TTEDict):
@@ -791,6 +793,9 @@ class GraphWorld:
                 elif kwargs:
                     self.effect(("node_attr_update", role), node)
                 return NONE
+            if name == "adjacency" and not args and name not in self.methods:
+                store = "succ" if self.directed else "adj"
+                return ListObj([TupleV([NodeV(r), AdjRow(store, r)]) for r in self.adjacency_rows(store)])
             if name == "add_nodes_from" and len(args) == 1 and name not in self.methods:
                 seq = ip._seq(args[0], node)
                 if seq is not None and all(isinstance(x, NodeV) for x in seq):
@@ -858,6 +863,21 @@ class GraphWorld:
             if name == "keys" and not args:
                 return Opaque("time_to_edge.keys()")
         if isinstance(obj, TTEDict):
+            if name == "setdefault" and 1 <= len(args) <= 2:
+                o, op = self.ori(args[0], node)
+                if not self._own_has(obj.entry, o, op):
+                    self._foreign_write(o, op, obj.entry, node)
+                    self.effect(("tte_add", repr(obj.entry.instant), o, op), node)
+                    obj.entry.own.add((o, op))
+                    obj.entry.touched = True
+                return NONE
+            if name == "get" and 1 <= len(args) <= 2:
+                o, op = self.ori(args[0], node)
+                if self._own_has(obj.entry, o, op):
+                    return NONE
+                return args[1] if len(args) == 2 else NONE
+            if name in ("keys", "items", "values", "copy") and not args:
+                raise Unsupported(node, "enumeration of the events stored at an instant")
             if name == "pop" and 1 <= len(args) <= 2:
                 o, op = self.ori(args[0], node)
                 if self._own_has(obj.entry, o, op):
